@@ -708,7 +708,7 @@ def assemble(prelude_files: List[str], units: List[Unit], out_path: str, extra_t
     linemap[i] (1-based output line i) = dict(kind=..., file=..., line=..., label=...)."""
     rewrite_log = []
     pieces: List[Piece] = []
-    pieces.append(Piece("#![allow(unused_imports, unused_variables, unused_mut, dead_code, unused_assignments, non_snake_case, unreachable_code, unused_parens)]\nuse vstd::prelude::*;\nverus! {\n", "glue"))
+    pieces.append(Piece("#![feature(allocator_api)]\n#![allow(unused_imports, unused_variables, unused_mut, dead_code, unused_assignments, non_snake_case, unreachable_code, unused_parens)]\nuse vstd::prelude::*;\nverus! {\n", "glue"))
     for pf in prelude_files:
         txt = _privatize(open(pf, encoding="utf-8").read())
         pieces.append(Piece("// ---- prelude: %s ----\n" % os.path.basename(pf), "glue"))
